@@ -7,7 +7,7 @@ P = {
     "theorems": ["C12_errors_is_as_leaves", "C12_kind_table", "C12_same_status", "C12_F2_refuted",
                  "C12_never_success", "C12_never_success_stack", "C12_success_override_possible",
                  "C12_body_only_if_verbose", "C12_redirect_has_location", "C12_redirect_handler_response",
-                 "C12_www_authenticate_status", "C12_www_authenticate_challenge", "C12_www_authenticate_has_header", "C12_F1_refuted",
+                 "C12_www_authenticate_status", "C12_www_authenticate_challenge", "C12_www_authenticate_has_header", "C12_www_authenticate_has_header_fixed", "C12_fix_only_adds_challenge", "C12_F1_refuted",
                  "C12_F1_header_never_written", "C12_panic_response", "C12_nonvacuous"],
     "streams": [{
         "name": "translate", "pkg": "./internal/zzverif/c12", "test": "TestVerifC12",
@@ -18,7 +18,7 @@ P = {
             "internal/handler/proxy/zz_verif_export.go": "export/proxy_export.go",
             "internal/handler/envoyextauth/grpcv3/zz_verif_export.go": "export/grpcv3_export.go",
         },
-        "eval_module": "Run.Eval_C12", "check_term": "check",
+        "eval_module": "Run.Eval_C12", "check_term": "check false",   # "check true" once fixes/C12-F1.diff is applied
         "n_quick": 1500, "n_thorough": 40000, "findings": {1: "C12-F1", 2: "C12-F2"}, "shard": 200,
     }],
     "rule": "respond configuration (verbose, six override codes incl. 0, 1xx/2xx, negative and >999) x Accept header (absent, "
@@ -54,6 +54,8 @@ P = {
                 "Go's errors.Is/errors.As are modelled (Base/ErrChain.v) and compared with the real functions on every generated tree",
                 "net/http below the ResponseWriter: observed on httptest.ResponseRecorder; a panic that escapes the recovery "
                 "middleware is observed as a panic of Handler.ServeHTTP (a real server drops the connection)",
+                "whether a body is well-formed for its Content-Type is judged by the driver (stacks.WellFormed: json.Valid, encoding/xml "
+                "tokeniser, <p>..</p>, anything for text/plain)",
                 "shared driver helper harness/stacks (request construction, in-memory gRPC listener, canonicalisation of responses)"],
     "level_text": "Proof (kernel-checked, no axioms) over error values of arbitrary shape and nesting that both error translators "
                   "compute the same class by the precedence authentication > authorization > communication/timeout > precondition > "
@@ -68,7 +70,8 @@ P = {
                   "override and no redirect code in 100..299 (the configuration schema and the redirect handler factory accept any "
                   "integer, see C12_success_override_possible). Open findings: C12-F1 (www_authenticate answers carry no "
                   "WWW-Authenticate header; the header theorem is proved outside its guard, C12_F1_refuted/C12_F1_header_never_written "
-                  "document it), C12-F2 (codes outside 100..999 split HTTP and gRPC). C12-F3 (different media type preference orders of "
+                  "document it; a candidate repair is in fixes/C12-F1.diff, the model is parametric in it: "
+                  "C12_www_authenticate_has_header_fixed holds without guard for the repaired variant), C12-F2 (codes outside 100..999 split HTTP and gRPC). C12-F3 (different media type preference orders of "
                   "the two translators) is reported in the input histogram only.",
     "assumptions": ["status codes fit in int32 (envoy's StatusCode); 1xx overrides are observed on httptest.ResponseRecorder (a real "
                     "net/http server would send them as informational responses followed by an implicit 200, which is why the "
